@@ -1069,7 +1069,7 @@ void lp_polynomial_resultant(lp_polynomial_t* res, const lp_polynomial_t* A, con
   lp_polynomial_external_clean(B);
 
   // Compute
-  res->hash = 0;
+  lp_polynomial_set_context(res, ctx);
   coefficient_resultant(ctx, &res->data, &A->data, &B->data);
 
   if (trace_is_enabled("polynomial")) {
